@@ -47,7 +47,13 @@ RULE = ("The canonical case list of a tier is: for every corpus frame (a "
         "index is recovered from the driver's seed) plus a seeded batch of "
         "random cases (multi-byte mutation, length-field extremes, "
         "insert/delete, splice of two frames, valid prefix + random tail, "
-        "pure random bytes).  Oracle per case: PacketIn(...).parsed returns; "
+        "pure random bytes, and grammar-built frames: DHCP options incl. "
+        "repeated codes / long values / overload areas, TCP option lists "
+        "filling the option space incl. every MPTCP subtype, IPv4 options, "
+        "LLDP TLV lists, NDP option lists, DNS messages with compression "
+        "pointers, IGMPv3 group records, IPv6 extension-header chains, VLAN / "
+        "MPLS stacks, RIP entry lists; two in three well-formed, the rest with "
+        "illegal lengths, counts and pointers).  Oracle per case: PacketIn(...).parsed returns; "
         "the layer chain is finite, made of packet_base objects ending in "
         "bytes/None, and an unparsed layer still holds its bytes; str() of "
         "every layer, dump() and pack() return (pack returns bytes).  Every "
@@ -77,7 +83,9 @@ STUBBED = ["connection and ofp_packet_in objects handed to PacketIn "
            "function sweep; the in-system half is the NET world's)"]
 EXPECT_PROBES = ["mode_trunc", "mode_byte", "mode_bytefix", "mode_truncfix",
                  "mode_random", "early_stop", "chain_changed",
-                 "pristine_ok"]
+                 "pristine_ok", "grammar_dhcp", "grammar_tcpopt",
+                 "grammar_lldp", "grammar_dns", "grammar_ndp",
+                 "grammar_wellformed_fully_parsed"]
 
 _PKT_DIR = os.path.join("pox", "lib", "packet") + os.sep
 
@@ -376,6 +384,13 @@ def _build_corpus():
       "ethernet/ipv4/tcp")
   add("tcp_unknown_opts_full", _eip(6, _tcp(bytes([99, 4, 1, 2]) * 10)),
       "ethernet/ipv4/tcp")
+  add("tcp_mptcp_unknown_full", _eip(6, _tcp(
+      b"\x1e\x12\x36" + bytes(range(15)) + bytes([99, 7, 1, 2, 3, 4, 5])
+      + b"\x01\x01\x08\x0a" + bytes(range(8)) + b"\x01\x01\x01")),
+      "ethernet/ipv4/tcp")
+  add("tcp_mptcp_dss_dsn8", _eip(6, _tcp(
+      b"\x1e\x14\x20\x0c" + bytes(range(16)) + bytes([63, 12]) + bytes(10)
+      + b"\x01" * 8)), "ethernet/ipv4/tcp")
   add("tcp_eol_unknown", _eip(6, _tcp(b"\x22\x06\xaa\xbb\xcc\xdd\x01\x00")),
       "ethernet/ipv4/tcp")
   add("tcp_mp_capable", _eip(6, _tcp(
@@ -1092,13 +1107,432 @@ _EXTREMES = [0, 1, 2, 3, 4, 5, 6, 7, 8, 0x0f, 0x10, 0x3f, 0x40, 0x7f, 0x80,
              0xc0, 0xfe, 0xff]
 
 
+# ---------------------------------------------------------------------------
+# grammar-built frames: containers whose repeated elements (options, TLVs,
+# records, extension headers, label/tag stacks) are drawn at random, with
+# repetition of the same element type and boundary lengths.  The corpus damage
+# above changes one place of a fixed frame; conditions met only by a particular
+# *sequence* of elements (the same option twice, a total above 255, a pointer
+# to a later name, a full option space) are reached from here.  Two frames in
+# three are well-formed throughout (so the parsers run to the end and pack()
+# sees every element); the rest also draw illegal lengths, counts and pointers.
+# ---------------------------------------------------------------------------
+
+_LENS = [0, 1, 2, 3, 4, 6, 8, 16, 40, 100, 128, 200, 254, 255]
+_DHCP_CODES = [1, 3, 6, 12, 15, 43, 50, 51, 53, 54, 55, 56, 60, 61, 77, 81, 82]
+
+
+def _g_dhcp_opts(r, budget, hostile):
+  codes = [r.pick(_DHCP_CODES) for _ in range(r.randint(1, 3))]
+  out = b""
+  for _ in range(r.randint(0, 7)):
+    n = r.pick(_LENS)
+    if len(out) + 2 > budget:
+      break
+    n = max(0, min(n, budget - len(out) - 2))
+    k = r.wpick([(6, r.pick(codes)), (1, 0), (1, r.randrange(1, 255))])
+    if k == 0:
+      out += b"\0"
+      continue
+    if k == 52:
+      k = 53
+    out += _dopt(k, r.randbytes(n))
+    if hostile and r.chance(0.1):
+      if r.chance(0.5) or not n:
+        out = out[:-1]
+      else:
+        out = out[:-n - 1] + bytes([min(n + 3, 255)]) + out[-n:]
+  return out
+
+
+def _g_dhcp(r, hostile):
+  over = r.wpick([(5, 0), (1, 1), (1, 2), (1, 3)])
+  opts = bytes([53, 1, r.randint(1, 8)]) if r.chance(0.7) else b""
+  if over:
+    opts += bytes([52, 1, over])
+  opts += _g_dhcp_opts(r, 700, hostile)
+  if r.chance(0.85):
+    opts += b"\xff"
+  sname = filef = b""
+  if over & 2:
+    sname = _g_dhcp_opts(r, 62, hostile) + (b"\xff" if r.chance(0.7) else b"")
+  if over & 1:
+    filef = _g_dhcp_opts(r, 126, hostile) + (b"\xff" if r.chance(0.7) else b"")
+  op = r.pick([1, 2])
+  return _eudp(68 if op == 1 else 67, 67 if op == 1 else 68,
+               _dhcp(op, opts, sname=sname[:64], filef=filef[:128]))
+
+
+def _g_mptcp(r):
+  st = r.pick([0, 1, 2, 2, 3, 4, 5, 6, 7, 15])
+  if st == 0:
+    n = r.pick([12, 20])
+    return bytes([30, n, 0x00, r.pick([0x81, 0x01])]) + r.randbytes(n - 4)
+  if st == 1:
+    n = r.pick([12, 16, 24])
+    return bytes([30, n, 0x10 | r.randrange(2), r.randrange(256)]) \
+        + r.randbytes(n - 4)
+  if st == 2:
+    fl = r.pick([0x00, 0x01, 0x03, 0x04, 0x05, 0x0c, 0x0f, 0x07, 0x1d])
+    n = 4
+    if fl & 1:
+      n += 8 if fl & 2 else 4
+    if fl & 4:
+      n += (8 if fl & 8 else 4) + 8
+    return bytes([30, n, 0x20, fl]) + r.randbytes(n - 4)
+  n = r.pick([3, 4, 8, 10, 16])
+  return bytes([30, n, (st << 4) | r.randrange(16)]) + r.randbytes(n - 3)
+
+
+def _g_tcpopts(r, hostile):
+  out = b""
+  fill = r.chance(0.4)          # aim at a completely full option space
+  for _ in range(r.randint(0, 6) if not fill else 40):
+    k = r.pick([0, 1, 1, 2, 3, 4, 5, 8, 30, 30, 30, 99, 253, r.randrange(9, 256)])
+    if k == 0 and fill:
+      k = 1
+    if k in (0, 1):
+      o = bytes([k])
+    elif k == 30:
+      o = _g_mptcp(r)
+    else:
+      std = {2: 4, 3: 3, 4: 2, 8: 10}.get(k)
+      if k == 5:
+        std = 2 + 8 * r.randint(1, 4)
+      ln = std if std is not None else r.pick([2, 3, 4, 6, 8, 18, 38, 40])
+      if hostile and r.chance(0.2):
+        ln = r.randint(0, 12)
+      o = bytes([k, ln]) + r.randbytes(max(ln - 2, 0))
+    if len(out) + len(o) > 40:
+      if not fill:
+        break
+      o = b"\x01" * (40 - len(out))
+      if not o:
+        break
+    out += o
+    if k == 0:
+      break
+  if hostile and r.chance(0.3):
+    out = out[:r.randrange(len(out) + 1)]
+  return out[:40]
+
+
+def _g_tcp(r, hostile):
+  if r.chance(0.3):
+    return _e6(6, _tcp6(_g_tcpopts(r, hostile)))
+  return _eip(6, _tcp(_g_tcpopts(r, hostile),
+                      payload=r.randbytes(r.pick([0, 1, 20]))))
+
+
+def _g_ip4opts(r, hostile):
+  out = b""
+  for _ in range(r.randint(1, 6)):
+    k = r.pick([0, 1, 1, 7, 68, 131, 137, 148, r.randrange(2, 256)])
+    if k == 0:
+      break
+    if k == 1:
+      out += bytes([k])
+    else:
+      ln = r.pick([2, 3, 4, 7, 11, 39, 40])
+      if hostile and r.chance(0.3):
+        ln = r.pick([0, 1, 41, 255])
+      out += bytes([k, ln]) + r.randbytes(max(min(ln, 40) - 2, 0))
+    if len(out) >= 40:
+      break
+  out = out[:40]
+  out += b"\0" * ((-len(out)) % 4)
+  proto, pay = r.pick([(17, _udp(1234, 4321, b"abcd")),
+                       (2, _igmp(0x11, 0, struct.pack("!I", 0))),
+                       (1, struct.pack("!BBHHH", 8, 0, 0xf7ff, 0, 0)),
+                       (6, _tcp(b"", payload=b""))])
+  return F.eth(M2, M1, F.ETH_IP, _ip4(proto, pay, options=out))
+
+
+def _g_lldp(r, hostile):
+  def ident(t):
+    st = r.randint(1, 7) if not hostile else r.randint(0, 9)
+    n = r.pick([1, 4, 6, 6, 16, 255])
+    if st == 4 or (t == 2 and st == 3):
+      n = 6
+    if st == 5:
+      n = r.pick([5, 17])
+      return _tlv(t, bytes([st, 1 if n == 5 else 2]) + r.randbytes(n - 1))
+    return _tlv(t, bytes([st]) + r.randbytes(n))
+  tl = [ident(1), ident(2), _tlv(3, r.randbytes(2))]
+  if hostile and r.chance(0.5):
+    del tl[r.randrange(3)]
+  for _ in range(r.randint(0, 8)):
+    t = r.pick([4, 5, 6, 7, 8, 8, 9, 50, 126, 127, 127])
+    if t == 7:
+      v = r.randbytes(4)
+    elif t == 8:
+      al = r.pick([1, 5, 7, 17, 31])
+      ol = r.pick([0, 0, 1, 9, 128])
+      v = (bytes([al, r.pick([1, 2, 6, 0])]) + r.randbytes(al - 1)
+           + bytes([r.randint(1, 3)]) + r.randbytes(4) + bytes([ol])
+           + r.randbytes(ol))
+    elif t == 127:
+      v = r.randbytes(3) + bytes([r.randrange(256)]) + r.randbytes(
+        r.pick([0, 1, 2, 9, 255, 507]))
+    else:
+      v = r.randbytes(r.pick([0, 1, 2, 12, 32, 255, 256, 511]))
+    if hostile and r.chance(0.3):
+      v = r.randbytes(r.pick([0, 1, 2, 3, 5, 9]))
+      t = r.pick([0, 1, 2, 3, 7, 8, 127])
+    tl.append(_tlv(t, v))
+  if hostile and r.chance(0.3):
+    r.shuffle(tl)
+  if not hostile or r.chance(0.7):
+    tl.append(_tlv(0, b""))
+  return _lldp(tl)[:1514]
+
+
+def _g_ndp(r, hostile):
+  typ = r.pick([133, 134, 134, 135, 135, 136, 136, 137, 1, 2, 3, 4, 128, 129,
+                130, 143])
+  fixed = {133: 4, 134: 12, 135: 20, 136: 20, 137: 36, 1: 4, 2: 4, 3: 4, 4: 4,
+           128: 4, 129: 4, 130: 20, 143: 4}[typ]
+  body = r.randbytes(fixed)
+  if hostile and r.chance(0.3):
+    body = r.randbytes(r.randint(0, fixed + 4))
+  if typ >= 133 and typ <= 137:
+    for _ in range(r.randint(0, 5)):
+      t = r.pick([1, 2, 3, 3, 5, 14, 24, 25, 31, 99])
+      units8 = {1: 1, 2: 1, 3: 4, 5: 1}.get(t, r.pick([1, 2, 3, 31]))
+      if hostile and r.chance(0.3):
+        units8 = r.pick([0, 1, 2, 5, 255])
+      if units8 == 0:
+        body += bytes([t, 0]) + r.randbytes(r.pick([0, 6]))
+        continue
+      ob = r.randbytes(min(units8, 40) * 8 - 2)
+      if t == 3:
+        ob = bytes([r.pick([0, 1, 64, 64, 128, 129, 255])]) + ob[1:]
+      body += bytes([t, units8]) + ob
+  elif typ in (1, 2, 3, 4) and r.chance(0.8):
+    body = body[:4] + _ip6(r.pick([17, 6, 58, 0, 43, 59]),
+                           r.randbytes(r.pick([0, 4, 8, 24])))
+  elif typ in (128, 129):
+    body += r.randbytes(r.pick([0, 8, 56]))
+  return _e6(58, _icmp6(typ, 0 if not hostile else r.randint(0, 4),
+                        body[:1200]))
+
+
+def _g_dnsname(r, here, hostile, first):
+  out = b""
+  for _ in range(r.randint(0, 4)):
+    k = r.wpick([(6, "lab"), (2, "ptr"), (1 if hostile else 0, "bad")])
+    if k == "lab":
+      n = r.pick([1, 2, 3, 7, 63])
+      alpha = b"abcxyz019-" if not hostile else b"abcxyz-_.\x00\xff"
+      out += bytes([n]) + bytes(r.pick(alpha) for _ in range(n))
+    elif k == "ptr":
+      if hostile:
+        tgt = r.pick([0, 12, 13, here, here + len(out), here + len(out) + 2,
+                      r.randrange(0x3fff), 0x3fff])
+      elif first is None or first >= here:
+        continue
+      else:
+        tgt = first
+      return out + struct.pack("!H", 0xc000 | (tgt & 0x3fff))
+    else:
+      return out + bytes([r.pick([0x40, 0x80, 0xbf])]) + r.randbytes(2)
+  return out + (b"\0" if not hostile or r.chance(0.8) else b"")
+
+
+def _g_dns(r, hostile):
+  body = b""
+  counts = []
+  off = 12
+  first = None
+  nq = r.randint(0, 3)
+  for _ in range(nq):
+    nm = _g_dnsname(r, off + len(body), hostile, first)
+    if first is None and nm[0:1] not in (b"\0", b"") and nm[0] < 64:
+      first = off + len(body)
+    body += nm + struct.pack("!HH", r.pick([1, 12, 28, 255]),
+                             r.pick([1, 255, 0x8001]))
+  for sect in range(3):
+    n = r.randint(0, 3)
+    counts.append(n)
+    for _ in range(n):
+      name = _g_dnsname(r, off + len(body), hostile, first)
+      t = r.pick([1, 1, 2, 5, 6, 12, 15, 16, 28, 28, 33, 41, 47, 99])
+      rdoff = off + len(body) + len(name) + 10
+      if t == 1:
+        rd = r.randbytes(4 if not hostile else r.pick([4, 0, 3, 5]))
+      elif t == 28:
+        rd = r.randbytes(16 if not hostile else r.pick([16, 0, 15, 17]))
+      elif t in (2, 5, 12):
+        rd = _g_dnsname(r, rdoff, hostile, first)
+      elif t == 15:
+        rd = r.randbytes(2 if not hostile else r.pick([0, 1, 2])) \
+            + _g_dnsname(r, rdoff + 2, hostile, first)
+      elif t == 6:
+        rd = (_g_dnsname(r, rdoff, hostile, first)
+              + _g_dnsname(r, rdoff, hostile, first)
+              + r.randbytes(20 if not hostile else r.pick([20, 0, 19])))
+      else:
+        rd = r.randbytes(r.pick([0, 1, 7, 40, 255]))
+      rdl = len(rd)
+      if hostile and r.chance(0.3):
+        rdl = r.pick([0, 1, len(rd) + 1, len(rd) + 200, 0xffff])
+      body += name + struct.pack("!HHIH", t, r.pick([1, 1, 0x8001, 255]),
+                                 r.pick([0, 300, 0xffffffff]), rdl) + rd
+  if hostile and r.chance(0.4):
+    counts[r.randrange(3)] += r.pick([1, 50, 0xfff0])
+    counts = [c & 0xffff for c in counts]
+  if hostile and r.chance(0.2):
+    nq = r.pick([nq + 1, 0xffff])
+  h = struct.pack("!HHHHHH", r.randrange(65536),
+                  r.pick([0x0100, 0x8180, 0x8400, 0xffff, 0]), nq, *counts)
+  port = r.pick([53, 53, 5353])
+  if r.chance(0.25):
+    return _e6(17, _udp6(port, port, (h + body)[:1200]))
+  return _eudp(r.pick([port, 40000]), port, (h + body)[:1200])
+
+
+def _g_igmp3(r, hostile):
+  recs = b""
+  n = r.randint(0, 5)
+  for _ in range(n):
+    ns = r.pick([0, 0, 1, 2, 3, 40])
+    aux = r.pick([0, 0, 0, 1, 2, 5])
+    cnt = ns
+    if hostile and r.chance(0.3):
+      cnt = r.pick([ns + 1, 0xffff])
+    recs += struct.pack("!BBH", r.pick([1, 2, 3, 4, 5, 6, 0, 99]), aux, cnt)
+    recs += struct.pack("!I", MC4) + r.randbytes(4 * ns + 4 * aux)
+  cnt = n
+  if hostile and r.chance(0.4):
+    cnt = r.pick([n + 1, 0, 0xffff])
+  if r.chance(0.3):
+    ns = r.pick([0, 1, 3])
+    body = (struct.pack("!I", MC4) + bytes([r.randrange(16), r.randrange(256)])
+            + _be16(ns if not hostile else ns + r.pick([0, 2]))
+            + r.randbytes(4 * ns))
+    m = _igmp(0x11, r.randrange(256), body)
+  else:
+    m = _igmp(0x22, 0, struct.pack("!HH", 0, cnt) + recs)
+  opts = bytes([0x94, 4, 0, 0]) if r.chance(0.6) else b""
+  return F.eth(M2, M1, F.ETH_IP, _ip4(2, m[:1200], dst=MC4, ttl=1,
+                                      options=opts))
+
+
+def _g_ip6ext(r, hostile):
+  kinds = [r.pick([0, 43, 60, 60, 44, 0, 43] + ([51, 135, 139] if hostile
+                                                else []))
+           for _ in range(r.randint(1, 5))]
+  upper = r.pick([17, 6, 58, 59, 41, 253])
+  if upper == 17:
+    pay = _udp6(1234, 4321, b"data")
+  elif upper == 6:
+    pay = _tcp6(b"")
+  elif upper == 58:
+    pay = _icmp6(128, 0, struct.pack("!HH", 1, 1) + b"ping")
+  elif upper == 41:
+    pay = _ip6(59, b"")
+  else:
+    pay = r.randbytes(r.pick([0, 8]))
+  chain = pay
+  nh = upper
+  for k in reversed(kinds):
+    if k == 44:
+      h = _frag6(nh, off=r.pick([0, 0, 1, 100]), more=r.chance(0.3))
+    elif k == 51:
+      n = r.pick([1, 2, 4])
+      h = bytes([nh, n, 0, 0]) + r.randbytes(4 * (n + 2) - 4)
+    else:
+      body = b""
+      for _ in range(r.randint(0, 4)):
+        t = r.pick([0, 1, 1, 5, 0xc2, 0x63, 0xff])
+        if t == 0:
+          body += b"\0"
+        else:
+          ln = r.pick([0, 1, 2, 4, 6, 14])
+          dl = ln
+          if hostile and r.chance(0.3):
+            dl = r.pick([ln + 1, 255])
+          body += bytes([t, dl]) + r.randbytes(ln)
+      if k == 43:
+        n = r.pick([0, 1, 2])
+        body = bytes([r.pick([0, 2, 3, 4]), n]) + r.randbytes(4 + 16 * n)
+      h = _ext(nh, body)
+      if hostile and r.chance(0.3):
+        h = bytes([h[0], r.pick([0, h[1] + 1, 255])]) + h[2:]
+    chain = h + chain
+    nh = k
+  return _e6(nh, chain[:1300])
+
+
+def _g_stack(r, hostile):
+  inner_t, inner = r.pick([
+    (0x0800, _ip4(17, _udp(1, 2, b"x"))), (0x86dd, _ip6(59, b"")),
+    (0x0806, F.arp(1, M1, A1, b"\0" * 6, A2)),
+    (0x88cc, _tlv(1, b"\x04" + M1) + _tlv(2, b"\x02p1") + _tlv(3, b"\0\x78")
+     + _tlv(0, b"")),
+    (0x0026, b"\x42\x42\x03" + b"\0" * 35)])
+  kind = r.pick(["vlan", "mpls", "mixed"])
+  out = inner
+  et = inner_t
+  depth = r.randint(1, 6)
+  if kind == "mpls" or (kind == "mixed" and r.chance(0.5)):
+    lab = b""
+    for i in range(depth):
+      s_bit = 1 if i == depth - 1 else 0
+      if hostile and r.chance(0.2):
+        s_bit ^= 1
+      lab += _mpls(r.pick([0, 1, 2, 3, 16, 0xfffff]), r.randrange(8), s_bit,
+                   r.pick([0, 1, 64, 255]))
+    out = lab + (out if inner_t in (0x0800, 0x86dd) else r.randbytes(4))
+    et = r.pick([0x8847, 0x8848])
+    depth = r.randint(0, 2) if kind == "mixed" else 0
+  if kind != "mpls":
+    for _ in range(depth):
+      tci = (r.randrange(8) << 13) | (r.randrange(2) << 12) | r.pick(
+        [0, 1, 100, 4095])
+      out = _be16(tci) + _be16(et if et >= 0x600 else len(out)) + out
+      et = r.pick([0x8100, 0x8100, 0x8100, 0x88a8, 0x9100])
+  if et < 0x600:
+    et = len(out)
+  return F.eth(M2, M1, et, out)
+
+
+def _g_rip(r, hostile):
+  n = r.pick([0, 1, 2, 25]) if not hostile else r.pick([0, 1, 26, 40])
+  ents = [(r.pick([2, 2, 0, 0xffff, 10]), r.randrange(65536),
+           r.randrange(2**32),
+           r.pick([0, 0xffffff00, 0xffffffff, 0x00ffff00]), r.randrange(2**32),
+           r.pick([0, 1, 15, 16, 17, 2**32 - 1])) for _ in range(n)]
+  body = _rip(r.pick([1, 2, 2]) if not hostile else r.pick([3, 0, 9]),
+              r.pick([1, 2, 2]) if not hostile else r.pick([0, 3]), ents)
+  if hostile and r.chance(0.5) and len(body) > 24:
+    body = body[:len(body) - r.randint(1, 19)]
+  return _eudp(520, 520, body)
+
+
+_GRAMMARS = [("dhcp", _g_dhcp), ("tcpopt", _g_tcp), ("ip4opt", _g_ip4opts),
+             ("lldp", _g_lldp), ("ndp", _g_ndp), ("dns", _g_dns),
+             ("igmp3", _g_igmp3), ("ip6ext", _g_ip6ext), ("stack", _g_stack),
+             ("rip", _g_rip)]
+
+
+def grammar_case(r):
+  name, fn = r.pick(_GRAMMARS)
+  hostile = r.chance(0.33)
+  return fn(r, hostile)[:1514], name + ("!" if hostile else "")
+
+
 def random_case(stepseed, j):
   """(frame bytes, description) of random case j of a random step"""
   r = Rng(mix(stepseed, j))
   C = corpus()
   names = sorted(C)
   kind = r.wpick([(5, "multi"), (4, "extreme"), (3, "insdel"), (3, "splice"),
-                  (3, "truncbyte"), (3, "tail"), (2, "typed"), (2, "bytes")])
+                  (3, "truncbyte"), (3, "tail"), (2, "typed"), (2, "bytes"),
+                  (6, "grammar")])
+  if kind == "grammar":
+    b, g = grammar_case(r)
+    return b, "grammar/" + g
   name = r.pick(names)
   f = bytearray(C[name])
   fix = False
@@ -1217,6 +1651,12 @@ def run_plan(plan):
       extra["cases_" + group] += 1
       bump(probes, "mode_" + step["mode"])
       chain, fs = guarded_case(b, direct=(ncase % 8 == 0))
+      if group == "random" and descr[0].startswith("random:grammar/"):
+        g = descr[0][15:]
+        bump(probes, "grammar_" + g.rstrip("!")
+             + ("_hostile" if g.endswith("!") else ""))
+        if not g.endswith("!") and "-" not in chain:
+          bump(probes, "grammar_wellformed_fully_parsed")
       if name is not None:
         if name not in pristine:
           pristine[name] = run_case(corpus()[name])[0]
